@@ -19,6 +19,7 @@ package main
 
 import (
 	"context"
+	"encoding/json"
 	"flag"
 	"fmt"
 	"io"
@@ -31,6 +32,7 @@ import (
 	"sync"
 	"sync/atomic"
 	"time"
+	"tunnox-core/internal/constants"
 
 	"tunnox-core/internal/client/mapping"
 	"tunnox-core/internal/cloud/models"
@@ -75,10 +77,15 @@ type thread struct {
 	res        string // result of the operation that completed in the last step
 	resItem    string
 	opDirty    bool
-	wasBlocked bool // was blocked before the last step of somebody else
-	failNext   bool // slot scenarios: the next injectable call of this thread fails
-	waited     bool // a blk event was reported for the current request
-	blocked    bool // scheduler's cache: seen parked inside a lock since the last step of anybody
+	wasBlocked bool   // was blocked before the last step of somebody else
+	curOp      byte   // operation in progress
+	opArgs     []int  // per operation: index of the storage call that fails (-1 = none)
+	failAt     int    // current operation: storage call number that fails (-1 = none)
+	callIdx    int    // storage calls issued by the current operation
+	announced  string // code quota: the item of the current admission has been seen and numbered already
+	failNext   bool   // slot scenarios: the next injectable call of this thread fails
+	waited     bool   // a blk event was reported for the current request
+	blocked    bool   // scheduler's cache: seen parked inside a lock since the last step of anybody
 	own        string
 }
 
@@ -284,15 +291,46 @@ type gatedStore struct {
 	g  *gate
 }
 
-func (w *gatedStore) Set(k string, v any, ttl time.Duration) error {
+// pre: the gate, then the fault point (the k-th storage call of a request can be made to fail).
+func (w *gatedStore) pre() error {
 	w.g.enter()
+	if th := w.g.me(); th != nil && !th.bypass && th.failAt >= 0 {
+		i := th.callIdx
+		th.callIdx++
+		if i == th.failAt {
+			return common.ErrInjected
+		}
+	}
+	return nil
+}
+func (w *gatedStore) Set(k string, v any, ttl time.Duration) error {
+	if err := w.pre(); err != nil {
+		return err
+	}
 	return w.in.Set(k, v, ttl)
 }
-func (w *gatedStore) Get(k string) (any, error)     { w.g.enter(); return w.in.Get(k) }
-func (w *gatedStore) Delete(k string) error         { w.g.enter(); return w.in.Delete(k) }
-func (w *gatedStore) Exists(k string) (bool, error) { w.g.enter(); return w.in.Exists(k) }
+func (w *gatedStore) Get(k string) (any, error) {
+	if err := w.pre(); err != nil {
+		return nil, err
+	}
+	return w.in.Get(k)
+}
+func (w *gatedStore) Delete(k string) error {
+	if err := w.pre(); err != nil {
+		return err
+	}
+	return w.in.Delete(k)
+}
+func (w *gatedStore) Exists(k string) (bool, error) {
+	if err := w.pre(); err != nil {
+		return false, err
+	}
+	return w.in.Exists(k)
+}
 func (w *gatedStore) SetExpiration(k string, ttl time.Duration) error {
-	w.g.enter()
+	if err := w.pre(); err != nil {
+		return err
+	}
 	return w.in.SetExpiration(k, ttl)
 }
 func (w *gatedStore) GetExpiration(k string) (time.Duration, error) {
@@ -303,17 +341,40 @@ func (w *gatedStore) CleanupExpired() error { return nil }
 func (w *gatedStore) Close() error          { return nil }
 func (w *gatedStore) ls() storage.ListStore { return w.in.(storage.ListStore) }
 func (w *gatedStore) SetList(k string, v []any, ttl time.Duration) error {
-	w.g.enter()
+	if err := w.pre(); err != nil {
+		return err
+	}
 	return w.ls().SetList(k, v, ttl)
 }
-func (w *gatedStore) GetList(k string) ([]any, error) { w.g.enter(); return w.ls().GetList(k) }
+func (w *gatedStore) GetList(k string) ([]any, error) {
+	if err := w.pre(); err != nil {
+		return nil, err
+	}
+	return w.ls().GetList(k)
+}
 func (w *gatedStore) AppendToList(k string, v any) error {
-	w.g.enter()
+	if err := w.pre(); err != nil {
+		return err
+	}
 	return w.ls().AppendToList(k, v)
 }
 func (w *gatedStore) RemoveFromList(k string, v any) error {
-	w.g.enter()
+	if err := w.pre(); err != nil {
+		return err
+	}
 	return w.ls().RemoveFromList(k, v)
+}
+func (w *gatedStore) SetNX(k string, v any, ttl time.Duration) (bool, error) {
+	if err := w.pre(); err != nil {
+		return false, err
+	}
+	return w.in.(storage.CASStore).SetNX(k, v, ttl)
+}
+func (w *gatedStore) CompareAndSwap(k string, o, n any, ttl time.Duration) (bool, error) {
+	if err := w.pre(); err != nil {
+		return false, err
+	}
+	return w.in.(storage.CASStore).CompareAndSwap(k, o, n, ttl)
 }
 
 type prefixQuerier interface {
@@ -347,8 +408,9 @@ type env interface {
 	occupancy() int
 	digest() string
 	items() []string
-	other(th *thread, seq int) string // an admission by ANOTHER client through the same service instance ("" = ran)
-	victimClosed(name string) bool    // the evicted item's resources were released
+	other(th *thread, seq int) string      // an admission by ANOTHER client through the same service instance ("" = ran)
+	victimClosed(name string) bool         // the evicted item's resources were released
+	revoke(th *thread, name string) string // give the item back through the service, gated ("" = the call returned)
 	close()
 }
 
@@ -359,9 +421,10 @@ type base struct {
 	cancel context.CancelFunc
 }
 
-func (b *base) other(*thread, int) string { return "err:no-other-client" }
-func (b *base) victimClosed(string) bool  { return true }
-func (b *base) close()                    { b.cancel() }
+func (b *base) other(*thread, int) string     { return "err:no-other-client" }
+func (b *base) victimClosed(string) bool      { return true }
+func (b *base) revoke(*thread, string) string { return "err:no-revoke" }
+func (b *base) close()                        { b.cancel() }
 
 func errTok(err error) string {
 	s := strings.ReplaceAll(err.Error(), " ", "_")
@@ -1046,6 +1109,8 @@ type codeEnv struct {
 	svcs   map[int]*conncode.Service
 	mu     sync.Mutex
 	ids    map[string]string // item name -> code id
+	codes  map[string]string // item name -> code string
+	alias  map[string]string // code id -> the name under which the harness first saw it
 }
 
 func (e *codeEnv) svc(inst int) *conncode.Service {
@@ -1062,6 +1127,8 @@ func (e *codeEnv) setup() error {
 	e.rawRep = repos.NewConnectionCodeRepository(repos.NewRepository(e.raw))
 	e.svcs = map[int]*conncode.Service{}
 	e.ids = map[string]string{}
+	e.codes = map[string]string{}
+	e.alias = map[string]string{}
 	filler := conncode.NewService(e.rawRep, nil, nil, &conncode.Config{MaxActiveCodesPerClient: 1 << 20, MaxActiveMappingsPerClient: 1 << 20}, e.ctx)
 	for i := 0; i < e.k.dead; i++ {
 		// revoked codes stay in the client's index (and are read by every count) but are not active
@@ -1079,6 +1146,8 @@ func (e *codeEnv) setup() error {
 			return err
 		}
 		e.ids[fmt.Sprintf("p%d", i)] = c.ID
+		e.codes[fmt.Sprintf("p%d", i)] = c.Code
+		e.alias[c.ID] = fmt.Sprintf("p%d", i)
 	}
 	for _, th := range e.k.threads {
 		e.svc(th.inst)
@@ -1098,8 +1167,17 @@ func (e *codeEnv) admit(th *thread, name string) (bool, string) {
 	}
 	e.mu.Lock()
 	e.ids[name] = c.ID
+	e.codes[name] = c.Code
 	e.mu.Unlock()
 	return true, ""
+}
+func (e *codeEnv) revoke(th *thread, name string) string {
+	e.mu.Lock()
+	code := e.codes[name]
+	e.mu.Unlock()
+	// success or error: either way the request is over; what it did to the quota state is observed
+	_ = e.svcs[th.inst].RevokeConnectionCode(code, "h")
+	return ""
 }
 func (e *codeEnv) release(th *thread, name string) bool {
 	e.mu.Lock()
@@ -1111,49 +1189,58 @@ func (e *codeEnv) release(th *thread, name string) bool {
 	return e.rawRep.Delete(id) == nil
 }
 
-// occupancy: the client's active codes as the index-based counter sees them, or - if that is larger -
-// the ground truth: codes that were handed out to a caller and are still valid for activation.
-func (e *codeEnv) occupancy() int {
-	n, err := e.rawRep.CountActiveByTargetClient(targetClient)
-	if err != nil {
-		return -1
-	}
-	e.mu.Lock()
-	ids := make([]string, 0, len(e.ids))
-	for _, id := range e.ids {
-		ids = append(ids, id)
-	}
-	e.mu.Unlock()
-	truth := 0
-	for _, id := range ids {
-		if c, err := e.rawRep.GetByID(id); err == nil && c.IsValidForActivation() {
-			truth++
+// live: the ids of the client's codes that are COUNTED by the quota (indexed, by-id copy valid) or can
+// be ACTIVATED (by-code copy valid) - the two views of one code are separate records.
+func (e *codeEnv) live() []string {
+	seen := map[string]bool{}
+	var ids []string
+	if cs, err := e.rawRep.ListByTargetClient(targetClient); err == nil {
+		for _, c := range cs {
+			if c.IsValidForActivation() && !seen[c.ID] {
+				seen[c.ID] = true
+				ids = append(ids, c.ID)
+			}
 		}
 	}
-	if truth > n {
-		n = truth
+	if q, ok := e.raw.(prefixQuerier); ok {
+		if m, err := q.QueryByPrefix(constants.KeyPrefixRuntimeConnectionCodeByCode, 0); err == nil {
+			keys := make([]string, 0, len(m))
+			for k := range m {
+				keys = append(keys, k)
+			}
+			sort.Strings(keys)
+			for _, k := range keys {
+				var c models.TunnelConnectionCode
+				if json.Unmarshal([]byte(m[k]), &c) != nil {
+					continue
+				}
+				if c.TargetClientID == targetClient && c.IsValidForActivation() && !seen[c.ID] {
+					seen[c.ID] = true
+					ids = append(ids, c.ID)
+				}
+			}
+		}
 	}
-	return n
+	return ids
 }
+func (e *codeEnv) occupancy() int { return len(e.live()) }
 func (e *codeEnv) items() []string {
-	cs, _ := e.rawRep.ListByTargetClient(targetClient)
+	ids := e.live()
 	e.mu.Lock()
 	defer e.mu.Unlock()
 	var r []string
-	for _, c := range cs {
-		if !c.IsValidForActivation() {
-			continue
-		}
-		found := false
-		for n, id := range e.ids {
-			if id == c.ID {
-				r = append(r, n)
-				found = true
+	for _, id := range ids {
+		a, ok := e.alias[id]
+		if !ok {
+			a = "id:" + id
+			for n, x := range e.ids {
+				if x == id {
+					a = n
+				}
 			}
+			e.alias[id] = a
 		}
-		if !found {
-			r = append(r, "unknown:"+c.ID)
-		}
+		r = append(r, a)
 	}
 	return r
 }
@@ -1459,6 +1546,19 @@ func parseCase(s string) (*kase, bool) {
 						t.e = true // only the per-client quotas have other clients
 					}
 					th.ops = append(th.ops, c[0])
+				case "v", "v0", "v1", "v2", "v3", "v4":
+					if k.proto != "code" {
+						t.e = true // revocation through the service: connection codes
+					}
+					th.ops = append(th.ops, 'v')
+					for len(th.opArgs) < len(th.ops)-1 {
+						th.opArgs = append(th.opArgs, -1)
+					}
+					if len(c) == 2 {
+						th.opArgs = append(th.opArgs, int(c[1]-'0'))
+					} else {
+						th.opArgs = append(th.opArgs, -1)
+					}
 				default:
 					t.e = true
 				}
@@ -1570,6 +1670,9 @@ func execCase(cs string) (obs string) {
 		num[fmt.Sprintf("p%d", i)] = i
 	}
 	next := k.pre
+	if k.proto == "code" {
+		next += k.dead // the inactive index entries of the model are numbered pre..pre+dead-1
+	}
 	var evs []string
 	fusedLock := k.proto == "ctrlx" // Lock() is not followed by a gate: it is part of the first step
 
@@ -1587,7 +1690,28 @@ func execCase(cs string) (obs string) {
 		}()
 		for i, o := range th.ops {
 			g.enterAt(true)
+			g.mu.Lock()
+			th.curOp, th.failAt, th.callIdx = o, -1, 0
+			if o == 'v' && i < len(th.opArgs) {
+				th.failAt = th.opArgs[i]
+			}
+			g.mu.Unlock()
 			switch o {
+			case 'v':
+				own := th.own
+				et := ""
+				if own != "" {
+					et = e.revoke(th, own)
+				}
+				g.mu.Lock()
+				th.failAt = -1
+				if et != "" {
+					th.res = et
+				} else {
+					th.res = "rvk"
+				}
+				th.own = ""
+				g.mu.Unlock()
 			case 'a':
 				name := fmt.Sprintf("t%d_%d", th.tid, i)
 				ok, et := e.admit(th, name)
@@ -1672,6 +1796,7 @@ func execCase(cs string) (obs string) {
 			th.waited = false
 			if atStart {
 				th.opDirty = false
+				th.announced = ""
 			}
 			before := e.digest()
 			itemsBefore := e.items()
@@ -1691,9 +1816,22 @@ func execCase(cs string) (obs string) {
 			}
 			n := e.occupancy()
 			switch res {
-			case "":
-				gone := missing(itemsBefore, e.items())
+			case "", "rvk":
+				itemsNow := e.items()
+				gone := missing(itemsBefore, itemsNow)
+				grown := missing(itemsNow, itemsBefore)
 				switch {
+				case res == "" && th.curOp == 'a' && k.proto == "code" && len(grown) == 1 && th.announced == "":
+					// the code of this admission exists now (its by-code record was written): that is the
+					// admission for an observer, whatever the request still has to do
+					num[grown[0]] = next
+					next++
+					th.announced = grown[0]
+					evs = append(evs, fmt.Sprintf("adm.%d.%d.-.%d", tid, num[grown[0]], n))
+				case th.curOp == 'v' && len(gone) == 1 && len(grown) == 0:
+					evs = append(evs, fmt.Sprintf("rel.%d.%d.%d", tid, num[gone[0]], n))
+				case res == "rvk":
+					evs = append(evs, fmt.Sprintf("stp.%d.%d", tid, n))
 				case stNow == 0:
 					// the step ended inside Lock(): the request queues up behind the holder
 					th.waited = true
@@ -1709,6 +1847,13 @@ func execCase(cs string) (obs string) {
 			case "oth":
 				evs = append(evs, fmt.Sprintf("stp.%d.%d", tid, n))
 			case "adm":
+				if th.announced != "" {
+					// announced when its record appeared; the request has now returned
+					num[item] = num[th.announced]
+					th.announced = ""
+					evs = append(evs, fmt.Sprintf("stp.%d.%d", tid, n))
+					break
+				}
 				num[item] = next
 				next++
 				// victims: items present before and gone now
